@@ -13,8 +13,13 @@ def main(tier, args):
         os.remove(f)
     hf = [vf.BUILD + "/C16/hashes_%d.bin" % i for i in range(NPARTS)]
     parts = range(NPARTS) if not args.only else [int(args.only)]
-    vf.run_procs(res, [("p%d" % i, [exe, str(i), str(NPARTS), str(cap), str(depth), str(nest), hf[i]]) for i in parts],
-                 env={"VERIF_DEADLINE_S": str(dl)}, log=log)
+    jobs = [("p%d" % i, [exe, str(i), str(NPARTS), str(cap), str(depth), str(nest), hf[i]]) for i in parts]
+    # second definition order: the user-defined terminal state is created after the routes that target it
+    NL = 8; hl = [vf.BUILD + "/C16/hashes_late_%d.bin" % i for i in range(NL)]
+    if not args.only:
+        jobs += [("late%d" % i, [exe, str(i), str(NL), str(cap // 2), str(depth), str(nest), hl[i]], {"C16_TERM_LATE": "1"}) for i in range(NL)]
+        hf = hf + hl
+    vf.run_procs(res, jobs, env={"VERIF_DEADLINE_S": str(dl)}, log=log, jobs=24)
     vf.run_procs(res, [("merge", [exe, "merge"] + hf)], log=log)
     for f in hf:
         if os.path.exists(f):
@@ -28,7 +33,7 @@ def main(tier, args):
     res.viols = [v for l in best.values() for v in l]
     st = res.stats
     vf.finish(PID, tier, res, t0,
-              rule="PROGRAMS: every canonical StateMachine definition in order of weight (<=3 states + optional user-defined terminal state, events {1,2} + any, "
+              rule="PROGRAMS (each in two definition orders: terminal state created before / after the routes that target it; the second order on half the cap): every canonical StateMachine definition in order of weight (<=3 states + optional user-defined terminal state, events {1,2} + any, "
                    "<=3 routes/state over (event|any, target incl. terminal, guard none/true/false/flip-flop), per-state handlers for a specific event and for any event "
                    "returning -1 or an existing target, a sub-machine per state, nesting depth <=%d, optional setInitState; weight = states+routes+guards+handlers+flags+sub-machines; "
                    "canonical = all states reachable, numbered in discovery order, first specific event is 1), first %d machines (see caps_hit for the weight reached); "
